@@ -1,7 +1,213 @@
 package main
 
-// injectHooks rewrites the functions named in /verif/harness/<pkg>/hooks.json so that a harness can
-// replace them by a stub: the body of F is prefixed with `if VfHook_F != nil { return VfHook_F(args...) }`.
-func injectHooks(pkg string) (map[string][]byte, error) {
-	return nil, nil
+import (
+	"bytes"
+	"fmt"
+	"go/ast"
+	"go/parser"
+	"go/printer"
+	"go/token"
+	"os"
+	"path/filepath"
+	"sort"
+	"strings"
+)
+
+// A hook is named "<pkgdir>:<Func>" or "<pkgdir>:<Recv>.<Method>" (Recv without '*'), e.g.
+// "harfbuzz:Buffer.Shape" or "harfbuzz:NewFont". injectHooks parses the CURRENT source of the
+// package in /repo, prefixes the body of the named function with
+//
+//	if VfHook_<Recv>_<Func> != nil { return VfHook_<Recv>_<Func>(recv, args...) }
+//
+// and returns the rewritten file plus a generated file declaring the hook variables, as overlay
+// entries. Nothing is written into /repo; the engine and the native replay see the same overlay.
+func injectHooks(hooks []string) (map[string][]byte, error) {
+	out := map[string][]byte{}
+	byPkg := map[string][]string{}
+	for _, h := range hooks {
+		i := strings.Index(h, ":")
+		if i < 0 {
+			return nil, fmt.Errorf("bad hook name %q", h)
+		}
+		byPkg[h[:i]] = append(byPkg[h[:i]], h[i+1:])
+	}
+	for pkg, names := range byPkg {
+		sort.Strings(names)
+		dir := filepath.Join(repoRoot, pkg)
+		fset := token.NewFileSet()
+		entries, err := os.ReadDir(dir)
+		if err != nil {
+			return nil, err
+		}
+		type parsed struct {
+			path string
+			f    *ast.File
+		}
+		var files []parsed
+		for _, e := range entries {
+			n := e.Name()
+			if e.IsDir() || !strings.HasSuffix(n, ".go") || strings.HasSuffix(n, "_test.go") {
+				continue
+			}
+			p := filepath.Join(dir, n)
+			f, err := parser.ParseFile(fset, p, nil, parser.ParseComments)
+			if err != nil {
+				return nil, err
+			}
+			files = append(files, parsed{p, f})
+		}
+		var decls bytes.Buffer
+		pkgName := ""
+		imports := map[string]string{} // import spec text needed by the hook variable types
+		done := map[string]bool{}
+		for _, pf := range files {
+			pkgName = pf.f.Name.Name
+			changed := false
+			for _, d := range pf.f.Decls {
+				fd, ok := d.(*ast.FuncDecl)
+				if !ok || fd.Body == nil {
+					continue
+				}
+				key := fd.Name.Name
+				recvType := ""
+				if fd.Recv != nil && len(fd.Recv.List) == 1 {
+					t := fd.Recv.List[0].Type
+					if s, ok := t.(*ast.StarExpr); ok {
+						t = s.X
+					}
+					if id, ok := t.(*ast.Ident); ok {
+						recvType = id.Name
+						key = id.Name + "." + fd.Name.Name
+					}
+				}
+				want := false
+				for _, n := range names {
+					if n == key {
+						want = true
+					}
+				}
+				if !want {
+					continue
+				}
+				done[key] = true
+				hookVar := "VfHook_" + strings.ReplaceAll(key, ".", "_")
+				// name every parameter
+				var argNames []string
+				var sigParams []string
+				typeStr := func(e ast.Expr) string {
+					var b bytes.Buffer
+					printer.Fprint(&b, fset, e)
+					return b.String()
+				}
+				if fd.Recv != nil {
+					r := fd.Recv.List[0]
+					if len(r.Names) == 0 || r.Names[0].Name == "_" {
+						r.Names = []*ast.Ident{ast.NewIdent("vfRecv")}
+					}
+					argNames = append(argNames, r.Names[0].Name)
+					sigParams = append(sigParams, typeStr(r.Type))
+				}
+				k := 0
+				for _, p := range fd.Type.Params.List {
+					if len(p.Names) == 0 {
+						p.Names = []*ast.Ident{ast.NewIdent(fmt.Sprintf("vfArg%d", k))}
+						k++
+					}
+					for i, n := range p.Names {
+						if n.Name == "_" {
+							p.Names[i] = ast.NewIdent(fmt.Sprintf("vfArg%d", k))
+							k++
+						}
+						ts := typeStr(p.Type)
+						if el, ok := p.Type.(*ast.Ellipsis); ok {
+							argNames = append(argNames, p.Names[i].Name+"...")
+							ts = "..." + typeStr(el.Elt)
+						} else {
+							argNames = append(argNames, p.Names[i].Name)
+						}
+						sigParams = append(sigParams, ts)
+					}
+				}
+				var results []string
+				if fd.Type.Results != nil {
+					for _, r := range fd.Type.Results.List {
+						cnt := len(r.Names)
+						if cnt == 0 {
+							cnt = 1
+						}
+						for i := 0; i < cnt; i++ {
+							results = append(results, typeStr(r.Type))
+						}
+					}
+				}
+				call := fmt.Sprintf("%s(%s)", hookVar, strings.Join(argNames, ", "))
+				var stmtSrc string
+				if len(results) > 0 {
+					stmtSrc = fmt.Sprintf("if %s != nil { return %s }", hookVar, call)
+				} else {
+					stmtSrc = fmt.Sprintf("if %s != nil { %s; return }", hookVar, call)
+				}
+				expr, err := parser.ParseFile(token.NewFileSet(), "", "package p\nfunc f() {\n"+stmtSrc+"\n}", 0)
+				if err != nil {
+					return nil, err
+				}
+				stmt := expr.Decls[0].(*ast.FuncDecl).Body.List[0]
+				fd.Body.List = append([]ast.Stmt{stmt}, fd.Body.List...)
+				changed = true
+				res := ""
+				if len(results) == 1 {
+					res = " " + results[0]
+				} else if len(results) > 1 {
+					res = " (" + strings.Join(results, ", ") + ")"
+				}
+				fmt.Fprintf(&decls, "// %s replaces %s.%s when set (verification stub)\nvar %s func(%s)%s\n\n", hookVar, pkgName, key, hookVar, strings.Join(sigParams, ", "), res)
+				_ = recvType
+				// imports used by the signature: copy every import of the file (unused ones are removed below)
+				for _, im := range pf.f.Imports {
+					name := ""
+					if im.Name != nil {
+						name = im.Name.Name + " "
+					}
+					imports[name+im.Path.Value] = im.Path.Value
+				}
+			}
+			if changed {
+				var b bytes.Buffer
+				if err := printer.Fprint(&b, fset, pf.f); err != nil {
+					return nil, err
+				}
+				out[pf.path] = b.Bytes()
+			}
+		}
+		for _, n := range names {
+			if !done[n] {
+				return nil, fmt.Errorf("hook target %s:%s not found in the current source", pkg, n)
+			}
+		}
+		// generated declarations file; only keep imports whose package name is referenced
+		var gen bytes.Buffer
+		fmt.Fprintf(&gen, "package %s\n\n", pkgName)
+		var keep []string
+		for spec, path := range imports {
+			p := strings.Trim(path, "\"")
+			base := p[strings.LastIndex(p, "/")+1:]
+			if f := strings.Fields(spec); len(f) == 2 {
+				base = f[0]
+			}
+			if strings.Contains(decls.String(), base+".") {
+				keep = append(keep, spec)
+			}
+		}
+		sort.Strings(keep)
+		if len(keep) > 0 {
+			gen.WriteString("import (\n")
+			for _, s := range keep {
+				gen.WriteString("\t" + s + "\n")
+			}
+			gen.WriteString(")\n\n")
+		}
+		gen.Write(decls.Bytes())
+		out[filepath.Join(dir, "zz_vf_hooks.go")] = gen.Bytes()
+	}
+	return out, nil
 }
